@@ -42,6 +42,23 @@ CASES = [
      "        removes: List[DNSQuestion] = []\n        for question, now_known_answers in self._history.items():\n            than, _ = now_known_answers\n            if now - than > _DUPLICATE_QUESTION_INTERVAL:\n                removes.append(question)\n",
      "        removes = [question for question, (than, _) in self._history.items() if now - than > _DUPLICATE_QUESTION_INTERVAL]\n"),
     ("H-R4", "rewrite", "C13", H, "        if not previous_question:\n            return False\n", "        if previous_question is None:\n            return False\n"),
+    # ---- _services/registry.py / C03
+    ("R-M1", "mutation", "C03", R, "        names.remove(name)\n        if not names:\n            del index[key]\n", "        names.remove(name)\n"),
+    ("R-M2", "mutation", "C03", R, "        self.servers.setdefault(info.server_key, []).append(info.key)\n", "        self.servers.setdefault(info.server_key, []).append(info.name)\n"),
+    ("R-M3", "mutation", "C03", R, "            if old_service_info is None:\n                continue\n", "            if old_service_info is None:\n                break\n"),
+    ("R-M4", "mutation", "C03", R, "self._remove_from_index(self.types, old_service_info.type.lower(), info.key)", "self._remove_from_index(self.types, info.type.lower(), info.key)"),
+    ("R-M5", "mutation", "C03", R, "        self.has_entries = bool(self._services)\n", "        self.has_entries = True\n"),
+    ("R-M6", "mutation", "C03", R, "        self._remove([info])\n        self._add(info)\n", "        self._add(info)\n        self._remove([info])\n"),
+    ("R-M7", "mutation", "C03", R, "        return [self._services[name] for name in record_list]", "        return [self._services[name] for name in reversed(record_list)]"),
+    ("R-R1", "rewrite", "C03", R, ("old_service_info", "old"), None),
+    ("R-R2", "rewrite", "C03", R, "        return [self._services[name] for name in record_list]",
+     "        out: List[ServiceInfo] = []\n        for name in record_list:\n            out.append(self._services[name])\n        return out"),
+    ("R-R3", "rewrite", "C03", R,
+     "            if old_service_info is None:\n                continue\n            assert old_service_info.server_key is not None\n            self._remove_from_index(self.types, old_service_info.type.lower(), info.key)\n            self._remove_from_index(self.servers, old_service_info.server_key, info.key)\n            del self._services[info.key]\n",
+     "            if old_service_info is not None:\n                assert old_service_info.server_key is not None\n                self._remove_from_index(self.types, old_service_info.type.lower(), info.key)\n                self._remove_from_index(self.servers, old_service_info.server_key, info.key)\n                del self._services[info.key]\n"),
+    ("R-R4", "rewrite", "C03", R, "        if info.key in self._services:\n            raise ServiceNameAlreadyRegistered\n", "        if self._services.get(info.key) is not None:\n            raise ServiceNameAlreadyRegistered\n"),
+    ("R-R5", "rewrite", "C03", R, "        names = index[key]\n        names.remove(name)\n        if not names:\n            del index[key]\n",
+     "        index[key].remove(name)\n        if len(index[key]) == 0:\n            del index[key]\n"),
 ]
 
 
